@@ -10,7 +10,8 @@ from .. import names
 from .. import hazards
 
 RULE = ("every strict, reserved and weak keyword of the Rust reference (editions 2015-2021; taken from the reference, not from "
-        "graphql-client's table) and 24 case-style names x name position {response field, alias, variable, input-object field, "
+        "graphql-client's table), four spellings of each that turn into the keyword only after snake_casing (`Type`, `TYPE`, `_type`, "
+        "`type_`; quick: without normalization / skip variants) and 24 case-style names x name position {response field, alias, variable, input-object field, "
         "@oneOf member, enum value} x option state {normalization none, normalization rust, skip_serializing_none (field-like positions)}: one tiny (schema, document) per combination, compiled by rustc "
         "and probed with payloads / assignments whose keys are the exact GraphQL names. quick = a seeded third of the matrix, "
         "thorough = the whole matrix (exhaustive). `true`, `false`, `null` are not legal enum values in GraphQL and are skipped "
@@ -19,7 +20,7 @@ RULE = ("every strict, reserved and weak keyword of the Rust reference (editions
 STYLES = ["fooBar", "foo_bar", "FooBar", "FOO_BAR", "_foo", "_Foo", "foo2bar", "a1", "x_1", "foo_", "fooBar_baz", "X", "iOS", "HTTPServer",
           "x", "aB", "AB", "a_b_c", "A_b", "fooID", "id", "ID_", "Type", "r"]
 POSITIONS = ["field", "alias", "variable", "input-field", "oneof-member", "enum-value"]
-FLOOR = {"cases": 1200, "pos:field": 150, "pos:alias": 150, "pos:variable": 150, "pos:input-field": 150, "pos:oneof-member": 150, "pos:enum-value": 140, "keyword-cases": 600}
+FLOOR = {"cases": 1200, "pos:field": 150, "pos:alias": 150, "pos:variable": 150, "pos:input-field": 150, "pos:oneof-member": 150, "pos:enum-value": 140, "keyword-cases": 600, "keyword-after-snake-cases": 1000}
 
 
 def make(name, pos, rust, cid, rng):
@@ -78,8 +79,23 @@ def make(name, pos, rust, cid, rng):
     return c
 
 
-def matrix():
+def derived(k):
+    """spellings that only become the keyword after snake_casing (heck drops the underscores and the case)"""
+    return [k[:1].upper() + k[1:], k.upper(), "_" + k, k + "_"]
+
+
+def matrix(full=True):
     out = []
+    for k in names.KEYWORDS:
+        for n in derived(k):
+            if n in names.KEYWORDS or n in STYLES:
+                continue
+            for pos in POSITIONS:
+                out.append((n, pos, False))
+                if full:
+                    out.append((n, pos, True))
+                    if pos in ("field", "alias", "variable", "input-field"):
+                        out.append((n, pos, "skip"))
     for n in names.KEYWORDS + STYLES:
         for pos in POSITIONS:
             if pos == "enum-value" and n in ("true", "false", "null"):
@@ -102,6 +118,8 @@ def execute(run, cases, tag="b0"):
         run.count("pos:" + c.get("position", "?"))
         if c.get("name") in names.KEYWORDS:
             run.count("keyword-cases")
+        elif names.snake(c.get("name") or "") in names.KEYWORDS:
+            run.count("keyword-after-snake-cases")
         label = "%s at %s (%s)" % (c.get("name"), c.get("position"), {True: "normalization rust", "skip": "skip_serializing_none"}.get(c.get("rust"), "normalization none"))
         failed = None
         if g["outcome"] != "ok":
@@ -154,7 +172,7 @@ def main(run):
     run.rule = RULE
     run.assumptions = ["keyword list: Rust reference, keywords chapter (strict, reserved, weak `union`), editions 2015-2021 + `gen` (2024 reserved)",
                        "each case isolates one name at one position so that a rustc failure is attributable to it"]
-    m = matrix()
+    m = matrix(full=not run.quick())
     run.exhaustive = True   # the whole matrix compiles in ~20 s on 16 cores: both tiers enumerate it completely
     if not run.quick():
         # thorough adds every name once more with the other schema front-end (JSON) to the matrix
